@@ -391,6 +391,12 @@ func judge(res *histResult, b *vlib.Batch, build string) {
 	if res.Failed != "" {
 		inconcl = append(inconcl, res.Failed)
 	}
+	fs = append(fs, v.structure...)
+	if h.Class == clsGate && (res.Aborted != "" || !res.Quiescent) && v.marks["gate-open"] != 0 {
+		// no quiescence: the starts so far must still be a prefix of the model order
+		f, _ := v.checkGate(true)
+		fs = append(fs, f...)
+	}
 	switch {
 	case res.Aborted != "":
 		// stopped by the online monitor; the safety oracles above decide on the log so far
@@ -407,7 +413,7 @@ func judge(res *histResult, b *vlib.Batch, build string) {
 		fs = append(fs, v.checkT4()...)
 		switch h.Class {
 		case clsGate:
-			f, inc := v.checkGate()
+			f, inc := v.checkGate(false)
 			fs = append(fs, f...)
 			if inc != "" {
 				inconcl = append(inconcl, inc)
